@@ -5,6 +5,10 @@ open Decimal
 
 module N :
  sig
+  val succ_double : coq_N -> coq_N
+
+  val double : coq_N -> coq_N
+
   val add : coq_N -> coq_N -> coq_N
 
   val sub : coq_N -> coq_N -> coq_N
@@ -16,6 +20,18 @@ module N :
   val eqb : coq_N -> coq_N -> bool
 
   val leb : coq_N -> coq_N -> bool
+
+  val ltb : coq_N -> coq_N -> bool
+
+  val pos_div_eucl : positive -> coq_N -> coq_N * coq_N
+
+  val div_eucl : coq_N -> coq_N -> coq_N * coq_N
+
+  val div : coq_N -> coq_N -> coq_N
+
+  val modulo : coq_N -> coq_N -> coq_N
+
+  val to_nat : coq_N -> nat
 
   val of_nat : nat -> coq_N
 
